@@ -443,7 +443,7 @@ class Run:
         return self
 
     def _make_class(self):
-        base = programs.ProgBaseReq if self.case.get('req_output') else None
+        base = programs.ProgBaseReq if self.case.get('req_output') else (programs.ProgOwnStatus if self.case.get('own_status') else None)
         return programs.program_class(self.case['program'], base)
 
     def _construct(self, cls, loop):
